@@ -75,6 +75,7 @@ class Observer:
             ins = [dict(i, cfg=i["cfg"] + [[cf[0], cf[1], cfgs2[cf], (interp.rat(r.randint(-3, 3)) if cfgs2[cf] == "d" else r.randint(0, 4))]
                                           for cf in extra]) for i in ins]
             res = self.I.run(pj, ins)
+        self.rwcheck(p, att, pj, pj2, hist)
         res2 = self.I.run(pj2, ins)
         c["pairs-executed"] = c.get("pairs-executed", 0) + 1
         nontrivial = False
@@ -97,9 +98,41 @@ class Observer:
                 break
         if nontrivial:
             c["pairs-nontrivial"] = c.get("pairs-nontrivial", 0) + 1
+            self.rec.setdefault("distinct", []).append(
+                hash((self.rec["name"], att["op"], json.dumps(att["path"]), json.dumps(att["args"], sort_keys=True),
+                      len(hist))) & 0xFFFFFFFFFFFF)
         if len(self.rec.setdefault("samples", [])) < 2:
             self.rec["samples"].append({"op": att["op"], "args": att["args"], "path": att["path"],
                                         "after": str(p2)[:400]})
+
+    MODELLED = {"insert_pass", "reorder_stmts", "cut_loop", "join_loops", "specialize",
+                "eliminate_dead_code", "remove_loop", "add_loop", "fission", "fuse"}
+
+    def rwcheck(self, p, att, pj, pj2, hist):
+        """correspondence A: the real output is the model rewrite (lean/ExoModel/Rewrite.lean)"""
+        op, a = att["op"], att["args"]
+        if op not in self.MODELLED:
+            return
+        path, k, flag = att["path"], 0, False
+        if op == "insert_pass":
+            flag = a["where"] == "before"
+        elif op == "add_loop":
+            flag = bool(a["guard"])
+        elif op == "fission":
+            if a.get("n_lifts", 1) != 1:
+                return
+            k = path[-1][1] + (1 if a["where"] == "after" else 0)
+            path = path[:-1]
+        c = self.rec["counts"]
+        req = {"op": "rwcheck", "name": op, "path": path, "k": k, "flag": flag, "before": pj, "after": pj2}
+        out = json.loads(self.I.drv.ask(json.dumps(req, separators=(",", ":"))))
+        c["rwcheck"] = c.get("rwcheck", 0) + 1
+        c["rwcheck:" + op] = c.get("rwcheck:" + op, 0) + 1
+        if not out.get("match"):
+            self.rec["records"].append({"kind": "shape-mismatch", "key": f"rwcheck:{op}",
+                                        "what": f"{op}: {out.get('why', out)}", "att": att, "hist": hist,
+                                        "program": self.rec["name"], "src": self.src,
+                                        "before": str(p), "after_json_body": None})
 
     def finish(self):
         if self.I:
